@@ -100,6 +100,10 @@ fn punct(k: &TokenKind) -> String {
 }
 
 pub fn dump<'tcx>(tcx: TyCtxt<'tcx>) -> String {
+    rustc_middle::ty::print::with_crate_prefix!(dump_inner(tcx))
+}
+
+fn dump_inner<'tcx>(tcx: TyCtxt<'tcx>) -> String {
     let mut w = W::new();
     w.begin_obj();
 
